@@ -312,6 +312,15 @@ func RunCheck(verifDir, repoDir, prop, tier string, seed int, overlay map[string
 			names = append(names, n)
 		}
 		sort.Strings(names)
+		now := map[string]bool{}
+		for _, n := range names {
+			now[n] = true
+		}
+		for _, old := range lock[prop] {
+			if !now[old] {
+				fmt.Printf("RELOCK %s: dropped from the lock: %s\n", prop, old)
+			}
+		}
 		lock[prop] = names
 		b, _ := json.MarshalIndent(lock, "", " ")
 		os.WriteFile(filepath.Join(verifDir, "obligations.lock.json"), b, 0o644)
